@@ -1,19 +1,16 @@
 (* C03Exact.v -- property C03 (exact matches are taken as they are).
 
-   RESULT.  C03_statement as written is FALSE of the model: two
-   counterexamples are given below (closed by vm_compute):
-     - the target is a run-once function whose result is already memoized in
-       the world: the call hands out the memo and executes nothing;
-     - a converter generator reports an error for a vertex it is consulted
-       on: the call returns that error and executes nothing.
-   Both are documented behaviours (FuncOnce, generator errors), not defects of
-   the resolver.  The closest true statement, C03_alt_proof, adds exactly these
-   two hypotheses:
+   RESULT.  C03_statement as written is FALSE of the model: a counterexample
+   is given below (closed by vm_compute): the target is a run-once function
+   whose result is already memoized in the world; the call hands out the memo
+   and executes nothing.  That is the documented FuncOnce behaviour, not a
+   defect of the resolver.  The closest true statement, C03_alt_proof, adds
+   exactly one hypothesis:
      (H1) the target is not memoized in w:
           fn_once f = false \/ lookup (fn_id f) (w_once w) = None
-     (H2) the outcome is not a generator error:
-          forall e, run_out r <> OErr (XGen e)
-   and keeps the conclusion c03_ok ... = true unchanged.
+   and keeps the conclusion c03_ok ... = true unchanged.  (A generator error
+   -- formerly a second counterexample -- is now excluded by the guard
+   [generator_failed] inside c03_ok; it is kept below as a regression example.)
    C03_total_statement is true as written (C03_total_proof). *)
 From ArgMapper Require Import Base Graph GraphAlg GraphSpec Types Args Resolver ResolverSpec CheckResolver Monitors ResolverStatements.
 From ArgMapper.proofs Require Import C19RefineMap C18DijkstraLemmas
@@ -132,7 +129,7 @@ End Direct.
 Lemma call_exact u bh f d opts b w t :
   build_args d opts = Some b -> wf_call u f b = true -> all_exact b f = true ->
   (exists e, call u bh f d opts w t = TapeErr e) \/
-  (exists e tr, call u bh f d opts w t = Ok (mkRun (OErr (XGen e)) tr w t []) /\ Forall is_gen_ev tr) \/
+  (exists e tr, call u bh f d opts w t = Ok (mkRun (OErr (XGen e)) tr w t []) /\ Forall is_gen_ev tr /\ tr <> []) \/
   (fn_once f = true /\ exists r0 tr wd tp inp, lookup (fn_id f) (w_once w) = Some r0 /\
      call u bh f d opts w t =
        Ok (mkRun (if r_builderr r0 then OErr XMissing else OOk r0) tr wd tp inp) /\
@@ -186,7 +183,8 @@ Proof.
   eexists. split; [vm_compute; reflexivity|]. split; vm_compute; reflexivity.
 Qed.
 
-(* 2. a generator reports an error *)
+(* 2. a generator reports an error: no longer a counterexample (guard generator_failed);
+   kept as a regression example of the now-accepted behaviour *)
 Definition cex2_f : fdecl := mkFn 1 100 FPos [mkF "" 7 ""] FPos [] false false.
 Definition cex2_opts : list arg :=
   [ATyped [Some (mkV 1 7)]; AConvGen [mkGen 5 [(KOut 7 "", GErr 42)]]].
@@ -194,11 +192,11 @@ Definition cex2_b : builder :=
   mkB [] [] [(7, mkV 1 7)] [] [] [mkGen 5 [(KOut 7 "", GErr 42)]] None None false.
 Definition cex2_t : tape vkey := [(SITE_GEN_VERTS, [KRoot; KFunc 100; KArg 7 ""; KOut 7 ""])].
 
-Example C03_counterexample_generror :
+Example C03_regression_generror :
   build_args [] cex2_opts = Some cex2_b /\ wf_call cex_u cex2_f cex2_b = true /\
   all_exact cex2_b cex2_f = true /\
   exists r, call cex_u cex_bh cex2_f [] cex2_opts world0 cex2_t = Ok r /\
-            run_out r = OErr (XGen 42) /\ c03_ok cex_u cex2_f cex2_b (co_of_run r) = false.
+            run_out r = OErr (XGen 42) /\ c03_ok cex_u cex2_f cex2_b (co_of_run r) = true.
 Proof.
   split; [reflexivity|]. split; [vm_compute; reflexivity|]. split; [vm_compute; reflexivity|].
   eexists. split; [vm_compute; reflexivity|]. split; vm_compute; reflexivity.
@@ -214,12 +212,33 @@ Qed.
 Print Assumptions C03_statement_false.
 Local Close Scope string_scope.
 
+Lemma all_gen_forallb tr :
+  Forall is_gen_ev tr -> forallb (fun e => match e with EGen _ _ => true | _ => false end) tr = true.
+Proof.
+  induction 1 as [|e tr He _ IH]; [reflexivity|]. simpl. destruct e; [destruct He|exact IH].
+Qed.
+
+Lemma c03_ok_gen u f b e tr wd tp inp :
+  Forall is_gen_ev tr -> tr <> [] ->
+  c03_ok u f b (co_of_run (mkRun (OErr (XGen e)) tr wd tp inp)) = true.
+Proof.
+  intros T N. unfold c03_ok.
+  assert (G : generator_failed (co_of_run (mkRun (OErr (XGen e)) tr wd tp inp)) = true).
+  { unfold generator_failed, co_of_run. cbn [run_out run_trace co_ok co_err co_events negb andb].
+    rewrite (all_gen_forallb T), andb_true_r.
+    destruct tr as [|ev tr']; [contradiction N; reflexivity|].
+    inversion T as [|? ? He _]; subst. destruct ev; [destruct He|reflexivity]. }
+  rewrite G, andb_false_r. reflexivity.
+Qed.
+
 Lemma c03_ok_exec u f b tr argv outs err wd tp inp :
   all_exact b f = true -> Forall is_gen_ev tr -> length argv = length (fn_in f) ->
   forallb (chk b) (combine (fn_in f) argv) = true ->
   c03_ok u f b (co_of_run (mkRun (OOk (mkR outs err false)) (tr ++ [EExec (fn_id f) argv outs err]) wd tp inp)) = true.
 Proof.
   intros EX T Ln Ck. unfold c03_ok. rewrite EX.
+  match goal with |- (if true && negb ?g then _ else _) = true => destruct g end; [reflexivity|].
+  cbn [andb negb].
   unfold co_of_run. cbn [run_out run_trace r_err co_panic co_events co_ok co_err negb andb].
   rewrite filter_app, (filter_gen_nil T). cbn [filter app].
   rewrite Z.eqb_refl. cbn [andb].
@@ -228,23 +247,22 @@ Proof.
   rewrite Base.eqb_refl. reflexivity.
 Qed.
 
-(* what happens in the two excluded situations: nothing at all is executed *)
+(* what happens in the excluded situation: nothing at all is executed *)
 Theorem C03_alt_excluded :
   forall u bh f d opts b w t r,
     build_args d opts = Some b -> wf_call u f b = true -> all_exact b f = true ->
     call u bh f d opts w t = Ok r ->
     c03_ok u f b (co_of_run r) = true \/
-    (Forall is_gen_ev (run_trace r) /\
-     ((exists e, run_out r = OErr (XGen e)) \/
-      (fn_once f = true /\ exists r0, lookup (fn_id f) (w_once w) = Some r0 /\
-         run_out r = if r_builderr r0 then OErr XMissing else OOk r0))).
+    (Forall is_gen_ev (run_trace r) /\ fn_once f = true /\
+     exists r0, lookup (fn_id f) (w_once w) = Some r0 /\
+       run_out r = if r_builderr r0 then OErr XMissing else OOk r0).
 Proof.
   intros u bh f d opts b w t r HB WC EX HC.
   destruct (call_exact u bh f d opts w t HB WC EX)
-    as [(e & Q)|[(e & tr & Q & T)|[(On & r0 & tr & wd & tp & inp & Lw & Q & T)|(_ & tr & argv & outs & err & wd & tp & inp & Q & T & Ln & Ck)]]];
+    as [(e & Q)|[(e & tr & Q & T & N)|[(On & r0 & tr & wd & tp & inp & Lw & Q & T)|(_ & tr & argv & outs & err & wd & tp & inp & Q & T & Ln & Ck)]]];
     rewrite Q in HC; [discriminate| | |]; inversion HC; subst r.
-  - right. split; [exact T|]. left. exists e. reflexivity.
-  - right. split; [exact T|]. right. split; [exact On|]. exists r0. split; [exact Lw|reflexivity].
+  - left. apply c03_ok_gen; assumption.
+  - right. split; [exact T|]. split; [exact On|]. exists r0. split; [exact Lw|reflexivity].
   - left. apply c03_ok_exec; assumption.
 Qed.
 Print Assumptions C03_alt_excluded.
@@ -256,18 +274,16 @@ Definition C03_alt_statement : Prop :=
     (* added H1: the target is not memoized *)
     (fn_once f = false \/ lookup (fn_id f) (w_once w) = None) ->
     call u bh f d opts w t = Ok r ->
-    (* added H2: no generator reported an error *)
-    (forall e, run_out r <> OErr (XGen e)) ->
     c03_ok u f b (co_of_run r) = true.
 
 Theorem C03_alt_proof : C03_alt_statement.
 Proof.
-  intros u bh f d opts b w t r HB WC H1 HC H2.
+  intros u bh f d opts b w t r HB WC H1 HC.
   destruct (all_exact b f) eqn:EX; [|unfold c03_ok; rewrite EX; reflexivity].
   destruct (call_exact u bh f d opts w t HB WC EX)
-    as [(e & Q)|[(e & tr & Q & _)|[(On & r0 & Lw)|(_ & tr & argv & outs & err & wd & tp & inp & Q & T & Ln & Ck)]]].
+    as [(e & Q)|[(e & tr & Q & T & N)|[(On & r0 & Lw)|(_ & tr & argv & outs & err & wd & tp & inp & Q & T & Ln & Ck)]]].
   - rewrite Q in HC. discriminate.
-  - rewrite Q in HC. inversion HC; subst r. exfalso. apply (H2 e). reflexivity.
+  - rewrite Q in HC. inversion HC; subst r. apply c03_ok_gen; assumption.
   - destruct Lw as (tr & wd & tp & inp & Lw & _). exfalso. destruct H1 as [A|A]; congruence.
   - rewrite Q in HC. inversion HC; subst r. clear HC.
     apply c03_ok_exec; assumption.
